@@ -1452,7 +1452,15 @@ fn expand_state<const N: usize>(
         out.transitions += 1;
         // successors are made from an exact copy; where clone() is not exact the state is
         // rebuilt from scratch instead, so that only C10 depends on clone()
-        let mut g1 = match exact_copy(g0) {
+        // save+load (clone) of THE object the history was made on - not of a copy of it: whatever a
+        // `&self` call like save() remembers inside the object is there when the next one comes
+        let same_object = match op {
+            Op::ReloadSwap => cfg.prop == "C08" || cfg.prop == "C09",
+            Op::CloneSwap | Op::CloneFromSwap => cfg.prop == "C10",
+            _ => false,
+        };
+        let from_scratch = if same_object { replay_both::<N>(cfg, &history_of(hist_ctx.0, hist_ctx.1, hist_ctx.2, idx)).ok().map(|(g, _)| g) } else { None };
+        let mut g1 = match from_scratch.or_else(|| exact_copy(g0)) {
             Some(g) => g,
             None => {
                 if !clone_reported {
